@@ -22,7 +22,7 @@ import common
 from common import Broken, Violation
 
 MANIFEST = {
-    "text": "20 theorems (all closed) about a set-valued exception-flow model of everything that runs outside "
+    "text": "23 theorems (all closed) about a set-valued exception-flow model of everything that runs outside "
             "_check_property's generic wrapper, for ALL JSON inputs, all json.loads behaviours, both interoperability values, "
             "every mode of the code under check (14 guardable sites, refuse-unrequested-custom, strict unregistered "
             "extension) and EVERY well-behaved black-box property cleaner (raises any Exception class, known or "
@@ -33,7 +33,13 @@ MANIFEST = {
             "tables; the evaluated (set-valued and structural) models cover every black box. CLOSED-WORLD: in the model a "
             "non-family class can only be produced at one of the enumerated sites, so family_only* / "
             "nonfamily_only_at_unguarded_sites check the model's own labelling; that the code has no further site rests on "
-            "the correspondence run and the oracle, not on a theorem. The store/registry clause is DEFINITIONAL in the model "
+            "(a) the correspondence run and the oracle and (b) the generated obligation source_flow_inventory_closed: "
+            "tr_c17flow walks the AST of the 20 mirrored functions of the code under check and requires every "
+            "subscript / attribute access / call / raise (294 on HEAD) to be covered by an automatic rule, by an entry of a "
+            "HAND-REVIEWED table (trusted; its completeness is what is machine-checked) or to be the operation of a model "
+            "site; the same walk reads each site's guard off the source (current_source_all_guarded, "
+            "current_source_family_only) and the harness cross-checks it with the witness probes. Functions outside "
+            "that list (property cleaners, serialization, stores) are not inventoried. The store/registry clause is DEFINITIONAL in the model "
             "(store_add_one returns the old store next to an escaping exception; registries are read-only parameters) and "
             "is checked on the code only by the oracle's deep snapshots. 'Terminates' and 'returns a fully validated "
             "object' have NO Coq counterpart (Gallina is total, clean_struct takes fuel, acceptance of an invalid embedded "
@@ -1004,6 +1010,13 @@ def check(run):
         return
 
     unguarded, wres = run_witnesses()
+    flow = extra.get("flow") if gen_ok else None
+    if flow:
+        run.coverage["flow_inventory"] = {k: flow[k] for k in ("occurrences", "auto", "reviewed", "unmatched")}
+        src_unguarded = sorted(t for t, v in flow["sites"].items() if v is False)
+        if src_unguarded != sorted(unguarded) and all(v is not None for v in flow["sites"].values()):
+            run.broken.append(Broken("translator", "tr_c17flow: guards read off the source disagree with the witness probes",
+                                     {"source_unguarded": src_unguarded, "probed_unguarded": sorted(unguarded)}))
     run.coverage["variant"] = {"unguarded_sites": unguarded, "guarded_sites": [t for t in SITE_TAGS if t not in unguarded],
                                "refuse_unrequested_custom": MODE["refuse_custom"],
                                "strict_unregistered_extension": MODE["strict_unregistered_extension"]}
